@@ -504,6 +504,15 @@ def handle (req : Json) : Except String Json := do
       let b ← Pointer.parse escDec ue base
       RelPointer.applyTo escDec ue rel b
     pure (Json.mkObj [("parts", encRes encParts r), ("str", encRes (fun ps => .str (l2s (Pointer.encode ps))) r)])
+  | "rel.toparts" =>
+    -- the base is a pointer that exists already: its tokens are given, not its text
+    let s ← getStr req "s"
+    let base ← getStrList req "base"
+    let ue ← getBool req "ue"
+    let r : Res (List Part) := do
+      let rel ← RelPointer.parse escDec ue s
+      RelPointer.applyTo escDec ue rel (base.map Part.key)   -- `from_parts` holds every token as a string
+    pure (Json.mkObj [("str", encRes (fun ps => .str (l2s (Pointer.encode ps))) r)])
   | "rel.spec" =>
     let origin ← req.getObjVal? "origin"
     let offset ← req.getObjVal? "offset"
